@@ -75,6 +75,7 @@ class Check:
         self.nontrivial = set()
         self.samples = []
         self.violations = []       # list of (key, detail dict)
+        self.ext_findings = []     # findings of extension phases about behaviour no listed property speaks of (never fatal)
         self.known_hit = []
         self.assumptions = []
         self.extra = {}
@@ -103,8 +104,23 @@ class Check:
     def nontriv(self, key):
         self.nontrivial.add(key if isinstance(key, (str, int, tuple)) else json.dumps(key, sort_keys=True))
 
+    # "A check may demand only what its property states" (DESIGN 10).  The extension phases grow the specification along
+    # code that no listed property speaks of (Timer, LivePlotting, Logger texts, the progress bar; the renaming of
+    # deprecated keyword arguments): a disagreement found there is reported, with a replay file, as an EXTENSION-FINDING
+    # and does not change the verdict on the host property.  Extension findings that ARE instances of the host property
+    # (CallbackList dispatch and the stop flag for C12, 1-D / batched call forms for C01, statistics of user-defined
+    # observables for C13) stay violations.
+    NOT_THE_PROPERTY = ("ext:auxcb:", "ext:dispatch:k-")
+
+    @property
+    def disagreements(self):
+        return self.violations + self.ext_findings
+
     def violation(self, key, detail):
         """key identifies the failing call site + input class (for known findings)."""
+        if key.startswith(self.NOT_THE_PROPERTY):
+            self.ext_findings.append((key, detail))
+            return
         for f in self.findings.get("known", []):
             if f["property"] == self.pid and f["key"] == key:
                 if key not in self.known_hit:
@@ -140,8 +156,24 @@ class Check:
         ev = dict(property_id=self.pid, tier=self.tier, seed=self.seed, level=level,
                   coverage=cov, assumptions=self.assumptions, wall_s=round(wall, 2),
                   violations=len(self.violations))
+        if self.ext_findings:
+            ev["coverage"]["extension_findings"] = sorted({k for k, _ in self.ext_findings})[:40]
         with open(os.path.join(EVIDENCE, self.pid + ".json"), "w") as fh:
             json.dump(ev, fh, indent=1, default=str)
+        if self.ext_findings:
+            d = os.path.join(REPLAYS, self.pid)
+            os.makedirs(d, exist_ok=True)
+            seen = set()
+            for key, detail in self.ext_findings[:20]:
+                if key in seen:
+                    continue
+                seen.add(key)
+                blob = json.dumps(dict(host_property=self.pid, extension_finding=key, detail=detail), indent=1, default=str)
+                path = os.path.join(d, "ext-" + sha(blob.encode()) + ".json")
+                with open(path, "w") as fh:
+                    fh.write(blob)
+                print("EXTENSION-FINDING: host=%s key=%s replay=%s (behaviour outside the listed properties; not a verdict on %s)"
+                      % (self.pid, key, path, self.pid))
         for k in self.known_hit:
             f = [x for x in self.findings["known"] if x["property"] == self.pid and x["key"] == k][0]
             print("KNOWN-FINDING: property=%s %s" % (self.pid, f["what"]))
